@@ -219,3 +219,51 @@ func ZZ_C19_dmg() {
 	zzCheckContents(db, all, blk)
 	zzCheckFileNums(mem, db)
 }
+
+// C19-dmg-del: the rebuilt table keeps deletion markers. One table holds a
+// deletion of k over an older value of k (each in its own block) and a third
+// entry whose block is damaged; after Recover k stays deleted (Recover puts
+// every table on level 0, so a dropped marker would resurrect the older
+// value — from this table or from any other).
+func ZZ_C19_dmg_del() {
+	zzAll = nil
+	mem := storage.NewMemStorage()
+	o := &opt.Options{Compression: opt.NoCompression, BlockSize: 1, BlockRestartInterval: 1}
+	so := dupOptions(o)
+	icmp := &iComparer{o.GetComparer()}
+	so.Comparer = icmp
+	k := vpNondetU8()
+	vpAssume(k < zzKeyDom-1)
+	s1, s2, s3 := zzSmallSeq(), zzSmallSeq(), zzSmallSeq()
+	vpAssume(s1 < s2)
+	vpAssume(s3 != s1 && s3 != s2)
+	ents := []zzEnt{
+		{u: []byte{k}, seq: s2, kt: keyTypeDel, v: []byte{0}},
+		{u: []byte{k}, seq: s1, kt: keyTypeVal, v: []byte{vpNondetU8()}},
+		{u: []byte{k + 1}, seq: s3, kt: keyTypeVal, v: []byte{vpNondetU8()}},
+	}
+	ti := zzWriteTable(mem, so, 5, ents)
+	d := ti.starts[2] + vpChoose(ti.ends[2]-ti.starts[2])
+	fd := storage.FileDesc{Type: storage.TypeTable, Num: ti.num}
+	r, err := mem.Open(fd)
+	vpAssert(err == nil, "setup-open")
+	size, _ := r.Seek(0, 2)
+	buf := make([]byte, size)
+	r.ReadAt(buf, 0)
+	r.Close()
+	nv := vpNondetU8()
+	vpAssume(nv != buf[d])
+	buf[d] = nv
+	mem.Remove(fd)
+	w, _ := mem.Create(fd)
+	w.Write(buf)
+	w.Close()
+	db, err := zzRecoverAndOpen(mem, o)
+	vpAssert(err == nil, "recover-succeeds-with-a-damaged-block")
+	if err != nil {
+		return
+	}
+	zzCheckContents(db, ents, 2)
+	_, gerr := db.get(nil, nil, []byte{k}, db.seq, nil)
+	vpAssert(gerr == ErrNotFound, "deleted-key-stays-deleted-after-rebuild")
+}
